@@ -16,7 +16,7 @@ def run(chk):
         v = tuple(tuple(x for x in s[0] if x.startswith("X ")) for s in d.steps if any(l.startswith("X ") for l in s[0]))
         return v if v else None
     analyse(chk, drv, impl, scns, ms, ds, project=xlines, judge=judge, what="query not timely / not faithful: ", nontrivial=nontriv)
-    # oracle from the property text on one fixed history (D30): d.svc is configured and the data a dronecheck needs are complete at
+    # oracle from the property text on one fixed history (D30, repaired): d.svc is configured and the data a dronecheck needs are complete at
     # '5 U': the query must go out in that step
     sh = slot_reuse_history(); dh = run_daemons(impl, [sh])[0]
     chk.cov["evaluations"] += 1; chk.hist("slot reuse after two reloads")
